@@ -165,3 +165,58 @@ def replay_remote_values(inputs, obl):
     if problems:
         return dict(confirmed=True, detail='; '.join(problems[:3]), count=len(problems))
     return dict(confirmed=False, detail='remote values equal the server-side values on all forms tried')
+
+
+def replay_concurrent_senders(inputs, obl):
+    """two senders on one connection (the interpreter's call and the listen loop's reply both end in stream_send_msg on the same
+    writer): a 1 MB frame that has to wait for the peer, a small frame sent meanwhile - both must arrive intact, in order"""
+    import asyncio
+    import socket
+    import uuid
+    from klongpy.sys_fn_ipc import stream_send_msg, stream_recv_msg
+    BIG, SMALL = "x" * 1_000_000, "small message"
+
+    async def scenario():
+        a, b = socket.socketpair()
+        a.setsockopt(socket.SOL_SOCKET, socket.SO_SNDBUF, 16 * 1024)
+        a.setblocking(False); b.setblocking(False)
+        _, writer = await asyncio.open_connection(sock=a)
+        reader, peer_writer = await asyncio.open_connection(sock=b)
+        id_a, id_b = uuid.uuid4(), uuid.uuid4()
+        task_a = asyncio.ensure_future(stream_send_msg(writer, id_a, BIG))
+        for _ in range(20):
+            await asyncio.sleep(0.01)
+        if task_a.done():
+            return None            # the large send did not have to wait: the schedule cannot be built here
+        task_b = asyncio.ensure_future(stream_send_msg(writer, id_b, SMALL))
+        for _ in range(20):
+            await asyncio.sleep(0.01)
+        problem = None
+        for want_id, want_body, name in ((id_a, BIG, "the large frame"), (id_b, SMALL, "the small frame")):
+            try:
+                rid, body = await asyncio.wait_for(stream_recv_msg(reader), timeout=8)
+            except asyncio.TimeoutError:
+                problem = f"{name}: nothing decodable arrived within 8 s (the stream is out of frame)"
+                break
+            except Exception as e:
+                problem = f"{name} could not be decoded ({type(e).__name__})"
+                break
+            if rid != want_id or body != want_body:
+                problem = f"{name} arrived with another id or body"
+                break
+        for t in (task_a, task_b):
+            if not t.done():
+                t.cancel()
+        writer.close(); peer_writer.close()
+        return problem or ''
+    loop = asyncio.new_event_loop()
+    try:
+        r = loop.run_until_complete(scenario())
+    finally:
+        try:
+            loop.run_until_complete(asyncio.sleep(0.05))
+        except Exception:
+            pass
+    if r:
+        return dict(confirmed=True, detail="a 1 MB frame waiting for the peer, a small frame sent on the same connection meanwhile: " + r)
+    return dict(confirmed=False, detail='two concurrent senders on one connection: both frames arrived intact and in order' if r == '' else 'schedule could not be built (the large send never waited)')
